@@ -10,6 +10,16 @@ from harness.common import *
 import itertools
 
 FUNCTIONAL = True      # the property fixes the output uniquely: a disagreement with the model is a failing input
+LEVEL_TEXT = ("Lean theorems: the transcriptions of __and__/__or__/__xor__/__invert__, __lshift__/__rshift__ and the in-place "
+              "forms compute the per-bit boolean function / drop-and-zero-fill of any operands with exactly the documented errors "
+              "(unequal lengths, empty, negative count); algebraic laws (double negation, idempotence, De Morgan, commutativity), "
+              "in-place = pure form, the `bs is self` shortcut, and agreement of every operator with the same operator on the "
+              "unsigned integer value masked to len bits - for all contents, lengths and shift counts. Correspondence: all pairs of "
+              "contents up to 4-5 bits, all shift counts from negative to beyond len incl. byte multiples and huge counts, self "
+              "operands incl. in-place, four classes, promotable right operands, msb0 and lsb0; operands unchanged.")
+LEVEL_NOTE = ("Trusted: Lean kernel (+propext, Classical.choice, Quot.sound); bitarray's C operators modelled as zipWith / map; "
+              "the transcription is tied to the code by the differential run only.")
+TECHNIQUE = "Lean 4 proof (list induction, Nat bitwise/testBit arithmetic) + exhaustive small-domain correspondence"
 INPLACE = {"iand": "and", "ior": "or", "ixor": "xor", "iandself": "andself", "iorself": "orself", "ixorself": "xorself"}
 
 
